@@ -27,7 +27,7 @@ func genC06(rt *rapid.T) World {
 	w.Spec.Service = rapid.SampledFrom([]string{"", "svc", "headless-svc"}).Draw(rt, "service")
 	for i := range w.Ops {
 		if w.Ops[i].K == OpReconcile && rapid.IntRange(0, 3).Draw(rt, "claimFault") == 0 {
-			w.Ops[i].PVCFault = rapid.IntRange(1, 4).Draw(rt, "pvcFault")
+			w.Ops[i].PVCFault = rapid.IntRange(1, 6).Draw(rt, "pvcFault")
 			w.Ops[i].PVCIdx = rapid.IntRange(0, 3).Draw(rt, "pvcIdx")
 		}
 	}
